@@ -332,6 +332,65 @@ func (v *V) write(sb *strings.Builder) {
 	}
 }
 
+// JSONSpelled writes the value like JSON but lets spell choose an equivalent JSON spelling for
+// every string and key (e.g. with \uXXXX escapes) and inserts insignificant whitespace.
+func (v *V) JSONSpelled(spell func(s string) string) string {
+	var sb strings.Builder
+	v.writeSpelled(&sb, spell)
+	return sb.String()
+}
+
+func (v *V) writeSpelled(sb *strings.Builder, spell func(string) string) {
+	switch v.K {
+	case Str:
+		sb.WriteString(spell(v.S))
+	case Arr:
+		sb.WriteString("[ ")
+		for i, e := range v.A {
+			if i > 0 {
+				sb.WriteString(" ,\n")
+			}
+			e.writeSpelled(sb, spell)
+		}
+		sb.WriteString("\t]")
+	case Obj:
+		sb.WriteString("{\n")
+		for i, m := range v.O {
+			if i > 0 {
+				sb.WriteString(",\r\n ")
+			}
+			sb.WriteString(spell(m.K))
+			sb.WriteString(" : ")
+			m.V.writeSpelled(sb, spell)
+		}
+		sb.WriteString(" }")
+	default:
+		v.write(sb)
+	}
+}
+
+// EscapeSpelling spells a string as a JSON string literal in which the characters selected by
+// pick (called once per rune, true = escape) are written as \uXXXX escapes.
+func EscapeSpelling(s string, pick func() bool) string {
+	var sb strings.Builder
+	sb.WriteByte('"')
+	for _, r := range s {
+		switch {
+		case r == '"' || r == '\\' || r < 0x20:
+			fmt.Fprintf(&sb, "\\u%04x", r)
+		case r < 0x10000 && pick():
+			fmt.Fprintf(&sb, "\\u%04x", r)
+		case r >= 0x10000 && pick():
+			r -= 0x10000
+			fmt.Fprintf(&sb, "\\u%04x\\u%04x", 0xd800+(r>>10), 0xdc00+(r&0x3ff))
+		default:
+			sb.WriteRune(r)
+		}
+	}
+	sb.WriteByte('"')
+	return sb.String()
+}
+
 // MarshalJSON makes *V usable inside evidence samples and replay files.
 func (v *V) MarshalJSON() ([]byte, error) { return []byte(v.JSON()), nil }
 
